@@ -8,7 +8,8 @@ RULE = ("generated function sets (arity 0..3, 1..3 functions, direct and mutual 
         "statements sit at nesting depth 0..3 inside conditionals, loops and blocks; calls placed as statement, operand, "
         "argument, condition, return operand, list element and inside caller loops; argument counts below, at and above "
         "the arity; caller locals, the caller's loop counter and a pending else-chain are printed after each call. "
-        "Compared with the Lean model and the structured semantics. Non-trivial: a return sits inside a loop or conditional.")
+        "Compared with the Lean model and the structured semantics. Non-trivial: a return sits inside a loop or conditional."
+        ' Closing-return family: the documented style `ফাং f(a) { body } ফেরত e;` (12 body shapes: empty, locals not visible, early return, loop, recursion, failing operand) x 7 call sites x 2/1/0 arguments.')
 ASSUMPTIONS = ["recursion depth stays far below the native stack limit"]
 default_compare = lambda m, i: C.compare_run(m, i)
 
@@ -70,6 +71,52 @@ def cases(rng, tier, stats):
     out.append(prog_case("surplus-not-evaluated", [("func", "এ", ["x"], [("return", G.var("x"))]),
                                                    ("func", "বুম", [], [("print", G.s("evaluated")), ("return", G.num(1))]),
                                                    ("print", G.call("এ", G.num(1), G.call("বুম")))]))
+    # the documented style `ফাং f(a) { body } ফেরত e;`: the operand of the return written after the block is evaluated after
+    # the body block has ended (its locals are gone, parameters and globals are visible), only when the body did not return
+    # itself; bodies that are empty, hold only a comment-free declaration, return early, loop, or recurse
+    note = ("func", "টোকা", ["ক"], [("print", G.bin_("+", G.s("টোকা "), G.call("_স্ট্রিং", G.var("ক"))))], G.var("ক"))
+    shapes = {
+        "empty-body": ("func", "ফ", ["a", "b"], [], G.bin_("+", G.var("a"), G.bin_("*", G.var("b"), G.num(10)))),
+        "empty-body-no-params": ("func", "ফ", [], [], G.bin_("+", G.var("বিশ্ব"), G.num(1))),
+        "empty-body-nil-param": ("func", "ফ", ["a", "b"], [], G.call("_টাইপ", G.var("b"))),
+        "local-not-visible": ("func", "ফ", ["a", "b"], [("decl", "ভিতরে", G.num(5))], G.bin_("+", G.var("a"), G.var("ভিতরে"))),
+        "local-shadows-global": ("func", "ফ", ["a", "b"], [("decl", "বিশ্ব", G.num(5)), ("print", G.var("বিশ্ব"))], G.bin_("+", G.var("a"), G.var("বিশ্ব"))),
+        "param-rebound-in-body": ("func", "ফ", ["a", "b"], [("assign", "a", [], G.bin_("+", G.var("a"), G.num(100)))], G.var("a")),
+        "early-return": ("func", "ফ", ["a", "b"], [("if", [(G.bin_(">", G.var("a"), G.num(1)), [("return", G.s("আগে ফেরত"))])], None)], G.call("টোকা", G.s("শেষ ফেরত"))),
+        "early-return-in-loop": ("func", "ফ", ["a", "b"], [("decl", "i", G.num(0)), ("loop", [("assign", "i", [], G.bin_("+", G.var("i"), G.num(1))),
+                                                                                         ("if", [(G.bin_(">", G.var("i"), G.var("a")), [("return", G.var("i"))])], None),
+                                                                                         ("if", [(G.bin_(">", G.var("i"), G.num(2)), [("break",)])], None)])], G.call("টোকা", G.s("লুপের পরে"))),
+        "recursive": ("func", "ফ", ["a", "b"], [("if", [(G.bin_("<=", G.var("a"), G.num(0)), [("return", G.num(0))])], None)],
+                      G.bin_("+", G.var("a"), G.call("ফ", G.bin_("-", G.var("a"), G.num(1))))),
+        "closing-calls-printer": ("func", "ফ", ["a", "b"], [("print", G.s("দেহ"))], G.bin_("+", G.call("টোকা", G.var("a")), G.call("টোকা", G.var("b")))),
+        "closing-fails": ("func", "ফ", ["a", "b"], [("print", G.s("দেহ"))], G.bin_("+", G.var("a"), G.s("x"))),
+        "closing-list": ("func", "ফ", ["a", "b"], [], G.lst(G.var("a"), G.var("b"), G.lst())),
+    }
+    ncl = 0
+    for sname, f in shapes.items():
+        for site in range(7):
+            for args in ((G.num(1), G.num(2)), (G.num(3),), ()):
+                callx = G.call("ফ", *args)
+                pre = [("decl", "বিশ্ব", G.num(40)), note, f, ("decl", "a", G.num(9)), ("decl", "গ", G.num(0))]
+                if site == 0:
+                    mid = [("expr", callx), ("print", G.s("বিবৃতি"))]
+                elif site == 1:
+                    mid = [("print", G.lst(callx, callx))]
+                elif site == 2:
+                    mid = [("decl", "ফল", callx), ("print", G.call("_টাইপ", G.var("ফল")))]
+                elif site == 3:
+                    mid = [("if", [(G.bin_("==", G.call("_টাইপ", callx), G.s("_সংখ্যা")), [("print", G.s("সংখ্যা"))])], [("print", G.s("অন্য"))])]
+                elif site == 4:
+                    mid = [("func", "বাইরে", [], [], callx), ("print", G.call("_টাইপ", G.call("বাইরে")))]
+                elif site == 5:
+                    mid = [("block", [("decl", "a", G.num(77)), ("print", G.call("_টাইপ", callx)), ("print", G.var("a"))])]
+                else:
+                    mid = [("loop", [("assign", "গ", [], G.bin_("+", G.var("গ"), G.num(1))), ("if", [(G.bin_(">", G.var("গ"), G.num(2)), [("break",)])], None),
+                                     ("print", G.call("_টাইপ", callx))])]
+                post = [("print", G.var("a")), ("print", G.var("বিশ্ব")), ("print", G.var("গ")), ("if", [(G.b(False), [])], [("print", G.s("else ঠিক"))])]
+                out.append(prog_case("closing-return", pre + mid + post, info={"shape": sname, "site": site, "args": len(args)}))
+                ncl += 1
+    stats["closing_return"] = ncl
     # recursion and mutual recursion
     for depth in (0, 1, 3, 6):
         fact = ("func", "গুণ", ["n"], [("if", [(G.bin_("<=", G.var("n"), G.num(1)), [("return", G.num(1))])], None),
